@@ -21,7 +21,10 @@ def run_checks(root):
     for pid in IDS:
         rc, out = sh(["/venv/bin/python", "-m", "c3static", "check", pid, "--no-write", "--root", root], cwd="/verif")
         # violation keys (rule|module::function|construct) are printed on the line after each violation
-        rules = sorted(set(re.findall(r"^    key: (R[\d.]+b?\|.*)$", out, flags=re.M)))
+        # a violation prints its location/detail line, then its key (rule|module::function|construct); line numbers are
+        # dropped so that a shifted but otherwise identical violation is not counted as new
+        pairs = re.findall(r"^  violation \S+ at [^:]+:\d+(?: / [^:]+:\d+)?: (.*)\n    key: (R[\d.]+b?\|.*)$", out, flags=re.M)
+        rules = sorted({f"{k} :: {re.sub(r'[Ll]ine \d+|L\d+', 'L', dtl)[:160]}" for dtl, k in pairs})
         if rc == 1:
             fired[pid] = rules
         elif rc == 2:
